@@ -12,6 +12,8 @@ Decides:
  H help        the help/version lookup goes through req_flag -> take_flag, so it cannot match a PosWord.
  R restore         when a wrapper (optional/many/..) absorbs NonStrictPos - raised AFTER the word right of `--` was taken - it puts the
                    pre-attempt state back, so the word stays available to the strict positionals (rows of the parse_option table, C06).
+ S carried     every function that returns a ParsePositional built from an existing one (help(), the derived Clone) carries `position`
+               over; only strict()/non_strict() set it, each to its own constant.
 Does not decide: interaction with completion (C14)."""
 import re
 from core import *
